@@ -10,6 +10,7 @@ import CbiVerif.Drv.Argv
 import CbiVerif.Drv.C01
 import CbiVerif.Drv.CLex
 import CbiVerif.Drv.Compilers
+import CbiVerif.Drv.Eval
 /-! Native JSON-lines driver: one request object per line, one reply per line.
 Each area registers its ops in `CbiVerif/Drv/<Area>.lean`. -/
 open Lean
@@ -25,7 +26,8 @@ def handlerTable : List (String × (Json → Json)) :=
   CbiVerif.Drv.Argv.handlers ++
   CbiVerif.Drv.C01.handlers ++
   CbiVerif.Drv.CLex.handlers ++
-  CbiVerif.Drv.Compilers.handlers
+  CbiVerif.Drv.Compilers.handlers ++
+  CbiVerif.Drv.Eval.handlers
 
 def handle (j : Json) : Json :=
   match j.getObjValAs? String "op" with
